@@ -332,7 +332,7 @@ func runRecords(c *lib.Ctx) {
 	add(core.MaxValues+1, 0, nil) // cannot be represented: must be refused
 	add(core.MaxValues+1, 1, nil)
 	for d := -2; d <= 2; d++ {
-		add(1, 0, map[int]int{0: 1_000_000 + d - 10})      // total length 1,000,000 + d
+		add(1, 0, map[int]int{0: 1_000_000 + d - 10})     // total length 1,000,000 + d
 		add(3, 1, map[int]int{1: 1_000_000 + d - 18 - 2}) // 2+4*4+1+x+1
 	}
 	var stats = make([]recStats, len(specs))
